@@ -51,6 +51,9 @@ type c01FormCase struct {
 	Mask  int `json:"mask"`  // positions whose link is replaced
 	Form  int `json:"form"`  // index into c01LinkForms
 	Empty int `json:"empty"` // 1 = the loader knows nothing at all
+	// Insert > 0: the chain itself is complete and valid; ONE extra link of the given form, unknown to the
+	// loader, is inserted before position Insert-1 (Mask is then unused)
+	Insert int `json:"insert,omitempty"`
 }
 
 func (c *c01FormCase) Weight() int { return c.Len + popcount(c.Mask) }
@@ -59,9 +62,9 @@ func (c *c01FormCase) Weight() int { return c.Len + popcount(c.Mask) }
 func c01FormsSub() *engine.Sub {
 	return &engine.Sub{
 		Name: "links-the-loader-does-not-know",
-		Rule: "correctly aligned chains of genuinely sealed delegations, served by a loader keyed by their true CIDs (or by an empty loader); every non-empty subset of positions of the proof list is replaced by another link to the same sealed bytes: " + fmt.Sprint(c01LinkForms) + "; the invocation is checked in memory and sealed+decoded, with both APIs: no such list may be allowed (the delegation cannot be loaded); the unmodified list must be (sanity); non-trivial = every case",
+		Rule: "correctly aligned chains of genuinely sealed delegations, served by a loader keyed by their true CIDs (or by an empty loader); every non-empty subset of positions of the proof list is replaced by another link to the same sealed bytes, or one extra link that the loader does not know is inserted at any position of the complete chain: " + fmt.Sprint(c01LinkForms) + "; the invocation is checked in memory and sealed+decoded, with both APIs: no such list may be allowed (the delegation cannot be loaded); the unmodified list must be (sanity); non-trivial = every case",
 		Bound: func(t string) string {
-			return fmt.Sprintf("chains of 1..%d links x every non-empty position subset x %d link forms x {complete loader, empty loader}", tierN(t, 3, 5), len(c01LinkForms))
+			return fmt.Sprintf("chains of 1..%d links x (every non-empty position subset x {complete loader, empty loader} + every insertion point) x %d link forms", tierN(t, 3, 5), len(c01LinkForms))
 		},
 		Setup: func(string) error { chainInit(); return nil },
 		Gen: func(tier string, emit func(any) bool) {
@@ -72,6 +75,13 @@ func c01FormsSub() *engine.Sub {
 							if !emit(&c01FormCase{Len: n, Mask: mask, Form: f, Empty: e}) {
 								return
 							}
+						}
+					}
+				}
+				for ins := 1; ins <= n+1; ins++ {
+					for f := range c01LinkForms {
+						if !emit(&c01FormCase{Len: n, Form: f, Insert: ins}) {
+							return
 						}
 					}
 				}
@@ -100,6 +110,11 @@ func c01FormsSub() *engine.Sub {
 				if cs.Mask&(1<<i) != 0 {
 					prf[i] = c01LinkForm(cs.Form, data, c)
 				}
+			}
+			if cs.Insert > 0 {
+				extra := c01LinkForm(cs.Form, []byte(fmt.Sprintf("some other block %d", cs.Form)), cidPool[40])
+				at := cs.Insert - 1
+				prf = append(append(append([]cid.Cid{}, real[:at]...), extra), real[at:]...)
 			}
 			var ld delegation.Loader = full
 			if cs.Empty == 1 {
